@@ -3,6 +3,9 @@
 package gi
 
 import (
+	"fmt"
+	"io"
+
 	"github.com/ohler55/slip"
 )
 
@@ -40,7 +43,27 @@ type Run struct {
 func (f *Run) Call(s *slip.Scope, args slip.List, depth int) (result slip.Object) {
 	slip.CheckArgCount(s, depth, f, args, 1, 1)
 	if args[0] != nil {
-		go func() { _ = args[0].Eval(s, depth) }()
+		go func() {
+			defer func() {
+				// A condition the routine does not handle ends the
+				// routine, not the whole process.
+				if rec := recover(); rec != nil {
+					var msg []byte
+					switch tr := rec.(type) {
+					case *slip.Panic:
+						msg = tr.AppendFull(nil)
+					case slip.Object:
+						msg = slip.ObjectAppend(nil, tr)
+					default:
+						msg = fmt.Appendf(nil, "%v", tr)
+					}
+					if w, ok := s.Get("*error-output*").(io.Writer); ok {
+						_, _ = fmt.Fprintf(w, "## run: %s\n", msg)
+					}
+				}
+			}()
+			_ = args[0].Eval(s, depth)
+		}()
 	}
 	return slip.Novalue
 }
